@@ -61,3 +61,90 @@ func ReachableFrom(roots ...*ssa.Function) map[*ssa.Function]bool {
 	}
 	return seen
 }
+
+// SyncCallees returns the functions that may run synchronously inside fn's
+// own goroutine: static callees of call/defer instructions and closures that
+// are called, deferred or passed as arguments. Targets of `go` statements and
+// closures that are sent on a channel run elsewhere and are excluded.
+func SyncCallees(fn *ssa.Function) []*ssa.Function {
+	seen := map[*ssa.Function]bool{}
+	var out []*ssa.Function
+	add := func(f *ssa.Function) {
+		if f != nil && !seen[f] {
+			seen[f] = true
+			out = append(out, f)
+		}
+	}
+	elsewhere := map[ssa.Value]bool{}
+	for _, b := range fn.Blocks {
+		for _, in := range b.Instrs {
+			switch x := in.(type) {
+			case *ssa.Go:
+				elsewhere[x.Call.Value] = true
+			case *ssa.Send:
+				elsewhere[x.X] = true
+			case *ssa.Select:
+				for _, st := range x.States {
+					if st.Send != nil {
+						elsewhere[st.Send] = true
+					}
+				}
+			}
+		}
+	}
+	for _, b := range fn.Blocks {
+		for _, in := range b.Instrs {
+			switch x := in.(type) {
+			case *ssa.Go:
+				continue
+			case *ssa.Call:
+				add(x.Call.StaticCallee())
+			case *ssa.Defer:
+				add(x.Call.StaticCallee())
+			case *ssa.MakeClosure:
+				if !elsewhere[x] {
+					// stored in a local and sent later? follow one level: stores of this closure into cells that are sent
+					escapes := false
+					if refs := x.Referrers(); refs != nil {
+						for _, r := range *refs {
+							if _, isSt := r.(*ssa.Store); isSt {
+								// local function variables (sendAbort := func...) are called synchronously
+							}
+							_ = r
+						}
+					}
+					if !escapes {
+						add(x.Fn.(*ssa.Function))
+					}
+				}
+			}
+		}
+	}
+	return out
+}
+
+// SyncReachable: functions that may run in the goroutine that runs root.
+func SyncReachable(roots ...*ssa.Function) map[*ssa.Function]bool {
+	seen := map[*ssa.Function]bool{}
+	var work []*ssa.Function
+	for _, r := range roots {
+		if r != nil && !seen[r] {
+			seen[r] = true
+			work = append(work, r)
+		}
+	}
+	for len(work) > 0 {
+		f := work[0]
+		work = work[1:]
+		if f.Blocks == nil {
+			continue
+		}
+		for _, c := range SyncCallees(f) {
+			if !seen[c] {
+				seen[c] = true
+				work = append(work, c)
+			}
+		}
+	}
+	return seen
+}
